@@ -11,7 +11,7 @@ class _RL(dict):
 UNIT_RLIMIT = _RL({"div_small": 80, "mul_redc": 80})      # unit -> --rlimit (Verus default is 10; 5x head-room over the measured maximum)
 UNIT_TIMEOUT = {"knuth": 1500, "addmul": 900, "mul_redc": 1200}     # unit -> seconds
 UNIT_EXPECT = {       # unit -> minimum number of verified functions on the unchanged tree (vacuity guard)
-    "core": 31, "add": 29, "kernels": 79, "addmul": 71, "addmul_n": 73, "mul": 51, "divd": 45, "div_small": 235, "knuth": 145, "mul_redc": 126, "basics": 22, "pow": 38, "divw": 54, "modular": 70, "spigot": 44, "gcd": 24, "forward": 57, "invring": 47, "bitlen": 81, "shifts": 131, "recip_table": 2, "gcdext": 67, "gcdw": 36, "bits": 78, "conv": 44, "lehmer": 38, "jebelean": 92, "logs": 27, "forward_shift": 81, "fmt_consts": 5, "rotate": 27, "popcount": 29, "conv_slice": 54, "conv_prim": 53, "absdiff": 15, "frombase": 71, "byteslice": 72, "padlimbs": 45,
+    "core": 31, "add": 29, "kernels": 79, "addmul": 71, "addmul_n": 73, "mul": 51, "divd": 45, "div_small": 235, "knuth": 145, "mul_redc": 126, "basics": 22, "pow": 38, "divw": 54, "modular": 70, "spigot": 44, "gcd": 24, "forward": 57, "invring": 47, "bitlen": 81, "shifts": 131, "recip_table": 2, "gcdext": 67, "gcdw": 36, "bits": 78, "conv": 44, "lehmer": 38, "jebelean": 92, "logs": 27, "forward_shift": 81, "fmt_consts": 5, "rotate": 27, "popcount": 29, "conv_slice": 54, "conv_prim": 53, "absdiff": 15, "frombase": 71, "byteslice": 72, "padlimbs": 45, "addnx1": 37,
 }
 
 COMMON_TRUST = [
@@ -84,14 +84,14 @@ PROPS = {
     "C15": dict(
         level="proof",
         level_text="Verus proves, for all slice lengths and contents, the exact integer contracts (result limbs plus carry/borrow word, or overflow flag) of adc, sbb, adc_n, sbb_n, "
-                   "mac, mul_nx1, addmul_nx1, submul_nx1, cmp, shift_left_small, shift_right_small, the DoubleWord helpers and the general addmul (zero trimming, sliding window, truncation) on the functions re-extracted from /repo; "
+                   "mac, mul_nx1, addmul_nx1, submul_nx1, add_nx1, cmp, shift_left_small, shift_right_small, the DoubleWord helpers and the general addmul (zero trimming, sliding window, truncation) on the functions re-extracted from /repo; "
                    "Kani proves the linear kernels (adc_n, sbb_n, add_nx1, shifts, cmp) per length and supplies counterexamples",
-        level_note="assumed in Verus: add_nx1's contract (early return inside an iter_mut loop; discharged per length <= 6 by Kani), slice length stability axiom, "
-                   "core integer specs (u64::overflowing_add/sub, wrapping_neg, i8::from(bool), cmp::min: each cross-checked full-domain by the loop-free Kani harnesses core_specs::*); add_nx1 is decided by Kani only (lengths 0,1,3,6: complete per length); "
+        level_note="add_nx1 is proved in unit addnx1 for all lengths (declared rewrite: its early-exit loop over `iter_mut()` is written as an index loop; Kani re-checks the unrewritten code per length <= 6); assumed: slice length stability axiom, "
+                   "core integer specs (u64::overflowing_add/sub, wrapping_neg, i8::from(bool), cmp::min: each cross-checked full-domain by the loop-free Kani harnesses core_specs::*); "
                    "shift_left_small / shift_right_small are proved for all lengths in unit shifts (declared rewrite `for limb in limbs` -> `limbs.iter_mut()`); "
                    "addmul_n and its private unrolled kernels addmul_1..4 are proved in unit addmul_n",
         technique="deductive contracts (Verus, all lengths) + Kani per-length contract harnesses",
-        units=["kernels", "addmul", "addmul_n", "shifts"],
+        units=["kernels", "addnx1", "addmul", "addmul_n", "shifts"],
         kani=dict(
             features=None,
             quick=["c15::c15_adc_sbb_n0", "c15::c15_adc_sbb_n1", "c15::c15_adc_sbb_n3", "c15::c15_adc_sbb_n6",
@@ -108,7 +108,7 @@ PROPS = {
         explanation="every kernel of ruint::algorithms named by the property carries a Verus contract over lvr() = little-endian limb value; addmul's contract is the property's sentence "
                     "(value modulo 2^(64 len) and flag <=> true sum does not fit)",
         trusted=COMMON_TRUST,
-        not_decided=["add_nx1 for slice lengths other than 0,1,3,6 (Kani per length only)"],
+        not_decided=[],
     ),
     "C02": dict(
         level="proof",
@@ -116,11 +116,11 @@ PROPS = {
                    "returns the full product for every (BITS, BITS_RHS), modular over the proved contracts of addmul, addmul_n (incl. the unrolled addmul_1..4), addmul_nx1, mac and the DoubleWord helpers; "
                    "inv_ring returns None exactly for BITS = 0 or an even value and otherwise the inverse modulo 2^BITS, for every width: the word-level Newton block (seed correct modulo 16, four doubling steps, the "
                    "debug assertion) and the limb-doubling lifting loop (Hensel step modulo 2^min(2p, BITS)); the Mul/MulAssign operator impls forward to wrapping_mul (unit forward)",
-        level_note="assumed: add_nx1's contract (Kani per length), slice-length axiom, core integer specs, Uint::from(2), operator contracts on Uint inside inv_ring's loop (* - *=: unit forward + proved methods). "
+        level_note="assumed: slice-length axiom, core integer specs, Uint::from(2), operator contracts on Uint inside inv_ring's loop (* - *=: unit forward + proved methods). "
                    "Declared rewrites in inv_ring: the core::num::Wrapping<u64> newtype is erased (Wrapping(x) -> x, .0 -> identity, * and - on such values -> wrapping_mul / wrapping_sub: the definition of Wrapping's "
                    "operators). NOT decided: iterator Product beyond 2 elements (Kani)",
         technique="deductive contracts (Verus, all widths) over the real multiplication code; Kani for Product and as counterexample source at tiny widths",
-        units=["core", "basics", "kernels", "addmul", "addmul_n", "mul", "invring", "forward"],
+        units=["core", "basics", "kernels", "addnx1", "addmul", "addmul_n", "mul", "invring", "forward"],
         kani=dict(
             features=None,
             quick=["c02::c02_inv_ring_cond_w0", "c02::c02_inv_ring_w1", "c02::c02_inv_ring_w8", "c02::c02_product_w8", "c02::c02_mulc_zero_w128", "c02::c02_mulc_zero_w65", "c02::c02_mulc_zero_w192"],
@@ -237,7 +237,7 @@ PROPS = {
         level_note="the whole chain div_rem -> div -> div_nx1/nx2/nxm -> div_2x1/3x2 -> reciprocal_2 is proved; the only ASSUMED kernel body is reciprocal_mg10 (see C14); operator forms / and % are assumed to forward to wrapping_div/rem (C20); "
                    "'zero divisor panics' is a Kani should_panic obligation per width (c03p), 'non-zero divisor never panics' is the Verus no-panic obligation under d != 0",
         technique="deductive contracts (Verus, all widths) + Kani should_panic/None harnesses per width",
-        units=["core", "basics", "add", "mul", "kernels", "addmul", "addmul_n", "div_small", "knuth", "divd", "divw", "forward"],
+        units=["core", "basics", "add", "mul", "kernels", "addnx1", "addmul", "addmul_n", "div_small", "knuth", "divd", "divw", "forward"],
         kani=dict(features=None, quick=hs("c03p", None, r"_w8_|divrem_w8"), thorough=hs("c03p"), bounds="widths 1, 64, 65 for the zero-divisor clauses; 8-bit exhaustive division"),
         explanation="the property's sentences are postconditions of the Uint methods; r < d and n = q*d + r give q = floor(n/d) by lemma_euclid",
         trusted=COMMON_TRUST,
@@ -253,7 +253,7 @@ PROPS = {
                    "`while let Some(trial) = ..` is rewritten to loop/break (declared). ASSUMED: `exp >>= 1` halves the value (operator impl, C05/C20), the generic Uint::from(2) / .to::<usize>() plumbing. "
                    "NOT decided: root (Newton iteration seeded by a float; Kani per width at 3-8 bits: values, early exits, panics), the approx_* functions",
         technique="deductive contracts (Verus, all widths) for pow and log; Kani per width for root and as counterexample source for log",
-        units=["core", "basics", "kernels", "addmul", "addmul_n", "mul", "pow", "bitlen", "conv", "logs"],
+        units=["core", "basics", "kernels", "addnx1", "addmul", "addmul_n", "mul", "pow", "bitlen", "conv", "logs"],
         kani=dict(features=None, quick=hs("c13"), thorough=hs("c13"), bounds="log/root: tiny widths only (values at 2-8 bits; None/panic conditions at 1..250 bits)"),
         explanation="pow: invariant result * base^exp = a^e over ghost true values. log: first loop keeps base^(result-1) <= value and ends with base^result <= value; second loop ends with value < base^(result+1); "
                     "result < BITS bounds both loops and the final conversion",
